@@ -27,6 +27,7 @@ import (
 	"github.com/styrainc/regal/pkg/builtins"
 	"github.com/styrainc/regal/pkg/config"
 	"github.com/styrainc/regal/pkg/linter"
+	"github.com/styrainc/regal/pkg/report"
 	"github.com/styrainc/regal/pkg/rules"
 	"github.com/styrainc/roast/pkg/transform"
 
@@ -38,6 +39,8 @@ const (
 	builtinTitle = "constant-condition"
 	customCat    = "naming"
 	customTitle  = "my-rule"
+	aggCat       = "imports" // a bundled aggregate rule: aggregate + aggregate_report, no report
+	aggTitle     = "unresolved-import"
 	decoyRule    = "todo-comment"
 	decoyCat     = "testing"
 )
@@ -61,6 +64,12 @@ aggregate_report contains violation if {
 `
 
 const policy = "package p\n\nallow if 1 == 1\n"
+
+// linted when the bundled aggregate rule is under observation: one import nothing resolves
+const policyAgg = "package p\n\nimport data.nonexistent.foo\n\nallow if 1 == 1\n"
+
+// files of the earlier run whose exported aggregates are supplied to "foreign" cases
+const nCollectFiles = 2
 
 // helper module evaluated next to the real bundle: it only *calls* regal's own rules/functions
 const helper = `package verif.c04
@@ -92,9 +101,11 @@ out := {
 	"to_run": to_run,
 	"report": [[v.category, v.title, v.level] | some v in main.report],
 	"aggregate": object.keys(main.aggregate),
+	"aggregate_full": main.aggregate,
 }
 
-agg_report := [[v.category, v.title, v.level] | some v in main.aggregate_report]
+# distinct triples: a rule may report once per file the aggregates stem from
+agg_report := {[v.category, v.title, v.level] | some v in main.aggregate_report}
 
 to_run_all := {sprintf("%s/%s", [c, t]) | some c, ts in main._rules_to_run; some t in ts}
 
@@ -139,6 +150,10 @@ type CaseIn struct {
 	Files int  `json:"files"`
 	// also call DetermineEnabledAggregateRules (each Determine* call compiles the whole bundle)
 	EnabledAgg bool `json:"enabled_agg"`
+	// "" = one run.  "foreign" = two steps: (1) an earlier run over nCollectFiles files with every rule
+	// enabled (no user configuration, no overrides) and WithExportAggregates; (2) this case's
+	// configuration, with WithAggregates(<what step 1 exported>).  Files may be 0 then.
+	Supply string `json:"supply,omitempty"`
 }
 
 type CaseOut struct {
@@ -154,6 +169,8 @@ type CaseOut struct {
 	Report    [][]string `json:"report"`
 	Aggregate []string   `json:"aggregate"`
 	AggReport [][]string `json:"agg_report"`
+	// main.aggregate_report fed with the aggregates exported by the earlier, all-enabled run
+	AggReportForeign [][]string `json:"agg_report_foreign"`
 	// full lint
 	LintErr        string     `json:"lint_err,omitempty"`
 	LintViolations [][]string `json:"lint_violations"` // [category, title, level, "agg"|"file"]
@@ -175,8 +192,13 @@ type env struct {
 	pqNoIn    rego.PreparedEvalQuery
 	pqBundled rego.PreparedEvalQuery
 	astBase   ast.Object
-	mu        sync.Mutex
-	bundles   map[string]*bundle.Bundle
+	astAgg    ast.Object
+	// aggregates exported by the earlier run (step 1 of "foreign" cases), and what that run reported
+	foreignAggs map[string][]report.Aggregate
+	foreignIn   ast.Value // the same as the "aggregates_internal" of an aggregate_report input
+	foreignErr  string
+	mu          sync.Mutex
+	bundles     map[string]*bundle.Bundle
 }
 
 func must(err error) {
@@ -213,12 +235,71 @@ func newEnv() *env {
 	e.pqSets = prep(`o := {"to_run_all": data.verif.c04.to_run_all, "noticed": data.verif.c04.noticed}`+with, false)
 	e.pqNoIn = prep(`o := data.verif.c04.noticed_noinput`+with, false)
 	e.pqBundled = prep(`o := {"bundled": data.verif.c04.bundled, "bundled_aggregate": data.verif.c04.bundled_aggregate}`, false)
-	in, err := rules.InputFromText("p.rego", policy)
-	must(err)
-	v, err := transform.ToAST("p.rego", policy, in.Modules["p.rego"], true)
-	must(err)
-	e.astBase = v.(ast.Object)
+	toAST := func(text string) ast.Object {
+		in, err := rules.InputFromText("p.rego", text)
+		must(err)
+		v, err := transform.ToAST("p.rego", text, in.Modules["p.rego"], true)
+		must(err)
+		return v.(ast.Object)
+	}
+	e.astBase = toAST(policy)
+	e.astAgg = toAST(policyAgg)
+	e.collect()
 	return e
+}
+
+// collect: step 1 of the two-step cases.  A real Lint run in which the custom aggregate rule and the
+// bundled aggregate rule are both enabled (provided level error, no user configuration, no overrides),
+// with WithExportAggregates: Report.Aggregates is what a later run gets through WithAggregates.
+func (e *env) collect() {
+	c := CaseIn{Custom: true, NoUser: true, Provided: map[string]map[string]*string{
+		builtinCat: {builtinTitle: sp("error")}, aggCat: {aggTitle: sp("error")}}}
+	l, err := e.baseLinter(&c)
+	if err != nil {
+		e.foreignErr = "collect run: " + err.Error()
+		return
+	}
+	input := inputFiles("q", policyAgg, nCollectFiles)
+	rep, err := l.WithExportAggregates(true).WithInputModules(&input).Lint(e.ctx)
+	if err != nil {
+		e.foreignErr = "collect run: " + err.Error()
+		return
+	}
+	for _, k := range []string{customCat + "/" + customTitle, aggCat + "/" + aggTitle} {
+		if len(rep.Aggregates[k]) != nCollectFiles {
+			e.foreignErr = fmt.Sprintf("collect run (every rule enabled) exported %d aggregates for %s, expected %d", len(rep.Aggregates[k]), k, nCollectFiles)
+			return
+		}
+	}
+	e.foreignAggs = rep.Aggregates
+	bs, err := json.Marshal(rep.Aggregates)
+	must(err)
+	var m map[string]any
+	must(json.Unmarshal(bs, &m))
+	e.foreignIn, err = transform.ToOPAInputValue(m)
+	must(err)
+}
+
+func inputFiles(prefix, text string, n int) rules.Input {
+	content := map[string]string{}
+	mods := map[string]*ast.Module{}
+	for i := 0; i < n; i++ {
+		name := fmt.Sprintf("%s%d.rego", prefix, i)
+		t := strings.Replace(text, "package p", fmt.Sprintf("package %s%d", prefix, i), 1)
+		in, err := rules.InputFromText(name, t)
+		must(err)
+		content[name] = t
+		mods[name] = in.Modules[name]
+	}
+	return rules.NewInput(content, mods)
+}
+
+// the policy that makes the rule under observation speak
+func policyFor(c *CaseIn) string {
+	if c.Cat == aggCat && c.Title == aggTitle {
+		return policyAgg
+	}
+	return policy
 }
 
 // a copy of regal's bundle whose provided configuration has exactly the given rules
@@ -405,7 +486,11 @@ func (e *env) runCase(c *CaseIn) CaseOut {
 			ast.Item(ast.StringTerm("cfg"), m.value),
 		)
 		in := ast.NewObject()
-		e.astBase.Foreach(func(k, v *ast.Term) { in.Insert(k, v) })
+		base := e.astBase
+		if policyFor(c) == policyAgg {
+			base = e.astAgg
+		}
+		base.Foreach(func(k, v *ast.Term) { in.Insert(k, v) })
 		in.Insert(ast.StringTerm("verif"), verif)
 		rs, err := e.pqFn.Eval(e.ctx, rego.EvalParsedInput(in))
 		if err != nil || len(rs) != 1 {
@@ -420,26 +505,44 @@ func (e *env) runCase(c *CaseIn) CaseOut {
 		o.ToRun, _ = r["to_run"].(bool)
 		o.Report = triples(r["report"])
 		o.Aggregate = strs(r["aggregate"])
-		// the aggregate report phase, fed with what the collect phase produced
-		aggs := map[string]any{}
-		for _, k := range o.Aggregate {
-			aggs[k] = []any{map[string]any{"rule": map[string]any{}, "aggregate_source": map[string]any{"file": "p.rego"}}}
+		// the aggregate report phase, (a) fed with what the collect phase of this very configuration
+		// produced (one run), (b) fed with what an earlier run, in which every rule was enabled, exported
+		aggReport := func(aggs ast.Value) ([][]string, error) {
+			ain, err := transform.ToOPAInputValue(map[string]any{
+				"ignore_directives": map[string]any{},
+				"regal": map[string]any{"operations": []string{"aggregate"},
+					"file": map[string]any{"name": "__aggregate_report__", "lines": []string{}}},
+			})
+			if err != nil {
+				return nil, err
+			}
+			ainObj := ain.(ast.Object)
+			ainObj.Insert(ast.StringTerm("aggregates_internal"), ast.NewTerm(aggs))
+			ainObj.Insert(ast.StringTerm("verif"), verif)
+			rs, err := e.pqAgg.Eval(e.ctx, rego.EvalParsedInput(ainObj))
+			if err != nil || len(rs) != 1 {
+				return nil, fmt.Errorf("agg eval: %v (%d results)", err, len(rs))
+			}
+			return triples(rs[0].Bindings["o"]), nil
 		}
-		ain, err := transform.ToOPAInputValue(map[string]any{
-			"aggregates_internal": aggs,
-			"ignore_directives":   map[string]any{},
-			"regal": map[string]any{"operations": []string{"aggregate"},
-				"file": map[string]any{"name": "__aggregate_report__", "lines": []string{}}},
-		})
+		own, _ := r["aggregate_full"].(map[string]any)
+		if own == nil {
+			own = map[string]any{}
+		}
+		ownV, err := transform.ToOPAInputValue(own)
 		must(err)
-		ainObj := ain.(ast.Object)
-		ainObj.Insert(ast.StringTerm("verif"), verif)
-		rs, err = e.pqAgg.Eval(e.ctx, rego.EvalParsedInput(ainObj))
-		if err != nil || len(rs) != 1 {
-			o.Err = fmt.Sprintf("agg eval: %v (%d results)", err, len(rs))
+		if o.AggReport, err = aggReport(ownV); err != nil {
+			o.Err = err.Error()
 			return o
 		}
-		o.AggReport = triples(rs[0].Bindings["o"])
+		if e.foreignErr != "" {
+			o.Err = e.foreignErr
+			return o
+		}
+		if o.AggReportForeign, err = aggReport(e.foreignIn); err != nil {
+			o.Err = err.Error()
+			return o
+		}
 		if c.FullBundle {
 			rs, err = e.pqSets.Eval(e.ctx, rego.EvalParsedInput(in))
 			if err != nil || len(rs) != 1 {
@@ -465,21 +568,21 @@ func (e *env) runCase(c *CaseIn) CaseOut {
 		l, err := e.baseLinter(c)
 		must(err)
 		nfiles := c.Files
-		if nfiles < 1 {
+		if nfiles < 1 && c.Supply != "foreign" {
 			nfiles = 1
 		}
-		content := map[string]string{}
-		mods := map[string]*ast.Module{}
-		for i := 0; i < nfiles; i++ {
-			name := fmt.Sprintf("p%d.rego", i)
-			text := strings.Replace(policy, "package p", fmt.Sprintf("package p%d", i), 1)
-			in, err := rules.InputFromText(name, text)
-			must(err)
-			content[name] = text
-			mods[name] = in.Modules[name]
+		if c.Supply == "foreign" {
+			if e.foreignErr != "" {
+				o.Err = e.foreignErr
+				return o
+			}
+			l = l.WithAggregates(e.foreignAggs)
 		}
-		input := rules.NewInput(content, mods)
-		rep, err := l.WithInputModules(&input).Lint(e.ctx)
+		if nfiles > 0 {
+			input := inputFiles("p", policyFor(c), nfiles)
+			l = l.WithInputModules(&input)
+		}
+		rep, err := l.Lint(e.ctx)
 		if err != nil {
 			o.LintErr = errClass(err)
 		}
@@ -534,23 +637,31 @@ func sp(s string) *string { return &s }
 // u: 0 rule absent from user config, 1 present without level, 2..4; c: same for the category default;
 // g: 0 none, 1..3; flags: bit0 disable, bit1 enable, bit2 disable_category, bit3 enable_category,
 // bit4 disable_all, bit5 enable_all; decoy: the lists also name another rule / category
-func codeCase(custom bool, p, u, c, g int, noUser bool, flags int, decoy bool) CaseIn {
+//
+// k: the rule under observation: 0 bundled bugs/constant-condition (report), 1 custom naming/my-rule
+// (report, aggregate, aggregate_report), 2 bundled imports/unresolved-import (aggregate, aggregate_report)
+func codeCase(k int, p, u, c, g int, noUser bool, flags int, decoy bool) CaseIn {
 	cat, title := builtinCat, builtinTitle
-	if custom {
+	pcat, ptitle := cat, title
+	switch k {
+	case 1:
 		cat, title = customCat, customTitle
+	case 2:
+		cat, title = aggCat, aggTitle
+		pcat, ptitle = cat, title
 	}
 	ci := CaseIn{Custom: true, Cat: cat, Title: title, Fn: true}
 	pl := p
-	if custom {
+	if k == 1 {
 		pl = 4 // the bundled rule keeps a fixed level while the custom rule is under test
 	}
 	ci.Provided = map[string]map[string]*string{}
 	switch pl {
 	case 0:
 	case 1:
-		ci.Provided[builtinCat] = map[string]*string{builtinTitle: nil}
+		ci.Provided[pcat] = map[string]*string{ptitle: nil}
 	default:
-		ci.Provided[builtinCat] = map[string]*string{builtinTitle: sp(lvlNames[pl-1])}
+		ci.Provided[pcat] = map[string]*string{ptitle: sp(lvlNames[pl-1])}
 	}
 	if noUser {
 		ci.NoUser = true
@@ -651,14 +762,17 @@ func main() {
 		out.Emit(map[string]any{"stream": "bundled", "bundled": strs(r["bundled"]), "bundled_aggregate": strs(r["bundled_aggregate"])})
 
 		// ---- exhaustive function level
-		for _, custom := range []bool{false, true} {
+		for k := 0; k < 3; k++ {
 			// provided level missing / without a level (p = 0, 1) cannot happen for a bundled rule (an obligation on
 			// Gen/RulesTable.v); the model is compared on them in the thorough tier only
 			ps := []int{2, 3, 4}
+			if k == 2 {
+				ps = []int{4} // the bundled aggregate rule: as for the custom rule; default-off in the two-step Lint cases
+			}
 			if tier == "thorough" {
 				ps = []int{0, 1, 2, 3, 4}
 			}
-			if custom {
+			if k == 1 {
 				ps = []int{4}
 			}
 			for _, p := range ps {
@@ -667,16 +781,16 @@ func main() {
 						for g := 0; g < 4; g++ {
 							for f := 0; f < 64; f++ {
 								decoy := (p+u+c+g+f)%2 == 1 // the lists also name another rule / category in every other case
-								add("fn", map[string]any{"k": b2i(custom), "p": p, "u": u, "c": c, "g": g, "nu": 0, "f": f, "d": b2i(decoy)},
-									codeCase(custom, p, u, c, g, false, f, decoy))
+								add("fn", map[string]any{"k": k, "p": p, "u": u, "c": c, "g": g, "nu": 0, "f": f, "d": b2i(decoy)},
+									codeCase(k, p, u, c, g, false, f, decoy))
 							}
 						}
 					}
 				}
 				for f := 0; f < 64; f++ { // no user configuration at all
 					decoy := (p+f)%2 == 1
-					add("fn", map[string]any{"k": b2i(custom), "p": p, "u": 0, "c": 0, "g": 0, "nu": 1, "f": f, "d": b2i(decoy)},
-						codeCase(custom, p, 0, 0, 0, true, f, decoy))
+					add("fn", map[string]any{"k": k, "p": p, "u": 0, "c": 0, "g": 0, "nu": 1, "f": f, "d": b2i(decoy)},
+						codeCase(k, p, 0, 0, 0, true, f, decoy))
 				}
 			}
 		}
@@ -699,7 +813,7 @@ func main() {
 			if noUser {
 				u, c, g = 0, 0, 0
 			}
-			ci := codeCase(custom, p, u, c, g, noUser, f, false)
+			ci := codeCase(b2i(custom), p, u, c, g, noUser, f, false)
 			ci.Lint = true
 			ci.EnabledAgg = rng.Below(4) == 0
 			ci.Files = []int{1, 3}[rng.Below(2)]
@@ -719,6 +833,46 @@ func main() {
 			}
 			add("lint", map[string]any{"k": b2i(custom), "p": p, "u": u, "c": c, "g": g, "nu": b2i(noUser), "f": f, "d": 0,
 				"full": b2i(ci.FullBundle), "files": ci.Files}, ci)
+		}
+		// ---- two steps: aggregates collected in an earlier run in which every rule was on, reported on under
+		// this configuration.  For the custom aggregate rule and the bundled aggregate rule, every documented way
+		// of switching a rule off or on (each command line tier alone, the pairs the README ranks, each tier of the
+		// configuration file) x {aggregates supplied from the earlier run, linting 0 / 1 / 3 files; one run}
+		type way struct{ p, u, c, g, f int }
+		ways := []way{}
+		for _, f := range []int{0, 1, 2, 4, 8, 16, 32, 3, 6, 12, 24, 48, 17, 18, 33, 36} {
+			ways = append(ways, way{4, 0, 0, 0, f})
+		}
+		for _, w := range []way{{4, 2, 0, 0, 0}, {4, 0, 2, 0, 0}, {4, 0, 0, 1, 0}, {4, 1, 0, 1, 0}, {4, 4, 2, 1, 0}, {4, 0, 4, 1, 0},
+			{4, 2, 0, 0, 2}, {4, 0, 2, 0, 8}, {4, 0, 0, 1, 32}, {4, 4, 0, 0, 16},
+			{2, 0, 0, 0, 0}, {2, 4, 0, 0, 0}, {2, 0, 3, 0, 0}, {2, 0, 0, 3, 0}, {2, 0, 0, 0, 2}, {2, 0, 0, 0, 32}} {
+			ways = append(ways, w)
+		}
+		n := 0
+		for _, k := range []int{1, 2} {
+			for wi, w := range ways {
+				if k == 1 && w.p != 4 {
+					continue // a custom rule has no provided level
+				}
+				for si, files := range []int{0, 1, 3, -3} { // -3: one run over three files
+					n++
+					if tier != "thorough" && si != (wi+k)%3 && !(si == 3 && wi%4 == k%4) {
+						continue
+					}
+					ci := codeCase(k, w.p, w.u, w.c, w.g, false, w.f, false)
+					ci.Lint, ci.EnabledAgg = true, true
+					if files >= 0 {
+						ci.Supply, ci.Files = "foreign", files
+					} else {
+						ci.Files = -files
+					}
+					if n%3 == 0 && w.p == 4 { // regal's real provided configuration (unresolved-import: error)
+						ci.FullBundle, ci.Provided = true, nil
+					}
+					add("lint", map[string]any{"k": k, "p": w.p, "u": w.u, "c": w.c, "g": w.g, "nu": 0, "f": w.f, "d": 0,
+						"full": b2i(ci.FullBundle), "files": ci.Files, "supply": ci.Supply}, ci)
+				}
+			}
 		}
 		// ---- generated configurations over the real bundle (explicit data)
 		for i := 0; i < nGen; i++ {
@@ -877,6 +1031,9 @@ func genCase(rng *hutil.Rng, bundledInfo map[string]any, i int) CaseIn {
 		Fn: true, Lint: true, Files: 1, EnabledAgg: rng.Below(4) == 0}
 	if rng.Below(12) == 0 {
 		ci.NoUser, ci.User = true, nil
+	}
+	if custom && rng.Below(2) == 0 {
+		ci.Supply, ci.Files, ci.EnabledAgg = "foreign", rng.Below(3), true
 	}
 	return ci
 }
